@@ -68,7 +68,10 @@ ChainStep == /\ kind = "chain" /\ ph = "run"
 
 \* CountFrom.__call__: infinite; the consumer takes N values
 CountStep == /\ kind = "count" /\ ph = "run"
-             /\ IF Len(out) < N THEN out' = Append(out, p1 + Len(out) * p2) /\ UNCHANGED <<ph, buf, pos, pulls>>
+             \* like itertools.count: the next value is the previous one plus the step (repeated addition;
+             \* on integers this equals start + i*step, which is what the reference CountRef states)
+             /\ IF Len(out) < N THEN out' = Append(out, IF out = <<>> THEN p1 ELSE out[Len(out)] + p2)
+                                     /\ UNCHANGED <<ph, buf, pos, pulls>>
                 ELSE ph' = "done" /\ UNCHANGED <<out, buf, pos, pulls>>
 
 K == UNCHANGED <<kind, p1, p2, N>>
